@@ -205,6 +205,34 @@ func init() {
 	specialExternals["fmt.Sprintf"] = func(x *Exec, call *ast.CallExpr, fn *types.Func, recv *Term, args []Term, st *State) []Term {
 		v := x.ctx.App(pureName(fn), SStr, args...)
 		v = x.name(st, "sprintf", v)
+		// a constant format made of literal text and %s verbs applied to strings is concatenation
+		if tv, ok := x.info().Types[call.Args[0]]; ok && tv.Value != nil && !call.Ellipsis.IsValid() {
+			f := constant.StringVal(tv.Value)
+			parts := strings.Split(f, "%s")
+			plain := !strings.Contains(strings.Join(parts, ""), "%")
+			if plain && len(parts)-1 == len(call.Args)-1 && len(x.lastVarargs) == len(call.Args)-1 {
+				allStr := true
+				for _, ra := range x.lastVarargs {
+					if ra.typ == nil {
+						allStr = false
+						break
+					}
+					if b, ok := ra.typ.Underlying().(*types.Basic); !ok || b.Info()&types.IsString == 0 {
+						allStr = false
+					}
+				}
+				if allStr {
+					cat := x.ctx.StrLit(parts[0])
+					for i, ra := range x.lastVarargs {
+						cat = mk(SStr, "sconcat", cat, ra.t)
+						if parts[i+1] != "" {
+							cat = mk(SStr, "sconcat", cat, x.ctx.StrLit(parts[i+1]))
+						}
+					}
+					st.assume(eq(v, cat))
+				}
+			}
+		}
 		// a format with an integer verb prints at least one character
 		if tv, ok := x.info().Types[call.Args[0]]; ok && tv.Value != nil {
 			if f := constant.StringVal(tv.Value); strings.Contains(f, "%d") || strings.Contains(f, "%v") && len(f) > 2 {
